@@ -57,7 +57,10 @@ def st_schedule(draw):
             # opens nothing but still ends the subscription whose id it reuses
             ops.append(["req", c, draw(st.sampled_from(SUBS)),
                         draw(E.weighted((8, st.lists(st.integers(0, len(FILTERS) - 1), min_size=1, max_size=2)),
-                                        (1, st.just([-1])), (1, st.just([])), (1, st.just([-1, 0])))),
+                                        (1, st.just([-1])), (1, st.just([])), (1, st.just([-1, 0])),
+                                        # index -2: a filter without any condition ({"limit": 20}) - valid JSON-wise, refused
+                                        # as a scan by both backends - placed BEFORE a usable filter
+                                        (2, st.tuples(st.just(-2), st.integers(0, len(FILTERS) - 1)).map(list)))),
                         draw(st.sampled_from([0, 1, 2]))])
         elif k <= 9:
             ops.append(["event", c, draw(st.sampled_from([1, 1, 2, 7, 20000])), draw(st.integers(0, 1)),
@@ -144,12 +147,15 @@ class Fanout(Sub):
                         if I["conn"] == ci and I["sub"] == op[2] and I["t_end_fed"] is None:
                             I["t_end_fed"] = t
                     fl = [FILTERS[i] for i in op[3] if i >= 0]
+                    if -2 in op[3]:
+                        labels.append("condition-less-filter-first")
                     if fl:
                         instances.append({"conn": ci, "sub": op[2], "filters": fl, "t_fed": t, "t_settled": None,
                                           "t_end_fed": None, "t_end_settled": None})
                     else:
                         labels.append("req-without-usable-filter")
-                    c.feed(["REQ", op[2]] + [FILTERS[i] if i >= 0 else {"kinds": "x"} for i in op[3]], op[4])
+                    c.feed(["REQ", op[2]] + [FILTERS[i] if i >= 0 else ({"kinds": "x"} if i == -1 else {"limit": 20})
+                                             for i in op[3]], op[4])
                     pending_feed = True
                 elif op[0] == "event":
                     counter += 1
@@ -368,4 +374,72 @@ class WriterWindow(Sub):
         return Result(viol, bool(inside), ["gate-reached" if inside else "gate-not-reached"])
 
 
-SUBCHECKS = [Fanout(), WriterWindow()]
+class Crowd(Sub):
+    """many connections from ONE address (reverse proxy / NAT), each with a subscription under the same id"""
+
+    name = "crowd"
+    examples = {"quick": 16, "thorough": 128}
+    shards = {"quick": 8, "thorough": 16}
+    rule = ("N=700..1000 connections with identical remote address and the same subscription id, one matching event, then "
+            "half of them disconnect and a second event: every open subscription gets each event exactly once; "
+            "non-trivial = always (>= 700 concurrent registry entries)")
+
+    def strategy(self, tier):
+        # LMDB only: the subscription registry is shared code (storage/base.py) and a thousand simultaneous SQL queries
+        # only measure the harness's patience
+        return st.tuples(st.just("kv"), st.integers(700, 1000), st.integers(0, 10**6)).map(list)
+
+    def run_case(self, case):
+        return H.run(self._run, case)
+
+    async def _run(self, case):
+        import random
+        import types
+        import nostr_relay.util as U
+
+        backend, n, salt = case
+        viol = []
+        # connection ids take 2 random bytes from the OS; make that stream a function of the case so a failure replays
+        stream = random.Random(salt)
+        real_secrets = U.secrets
+        U.secrets = types.SimpleNamespace(token_hex=lambda k=2: "%0*x" % (2 * k, stream.getrandbits(8 * k)))
+        try:
+            return await self._crowd(backend, n, salt, viol)
+        finally:
+            U.secrets = real_secrets
+
+    async def _crowd(self, backend, n, salt, viol):
+        async with H.Rig(backend, file_db=True if backend == "sql" else None) as rig:
+            conns = [rig.conn("10.7.7.7") for _ in range(n)]
+            for c in conns:
+                c.feed(["REQ", "s", {"kinds": [1]}])
+            await rig.settle()
+            pub = rig.conn("10.7.7.8")
+            ev1 = E.make(0, 1, E.T0 + 1, [], "crowd-%d" % salt)
+            await pub.send(["EVENT", ev1])
+            bad = [i for i, c in enumerate(conns)
+                   if sum(1 for f in c.frames() if f[0] == "EVENT" and f[2]["id"] == ev1["id"]) != 1]
+            if bad:
+                viol.append(V("%s-crowd-delivery" % backend, "every open matching subscription receives the event exactly once",
+                              connections=n, wrong=len(bad), first=bad[:5]))
+            else:
+                for c in conns[::2]:
+                    c.feed(None)
+                await rig.settle()
+                ev2 = E.make(1, 1, E.T0 + 2, [], "crowd2-%d" % salt)
+                await pub.send(["EVENT", ev2])
+                bad = [i for i, c in enumerate(conns) if i % 2 == 1
+                       and sum(1 for f in c.frames() if f[0] == "EVENT" and f[2]["id"] == ev2["id"]) != 1]
+                gone = [i for i, c in enumerate(conns) if i % 2 == 0
+                        and any(f[0] == "EVENT" and f[2]["id"] == ev2["id"] for f in c.frames())]
+                if bad or gone:
+                    viol.append(V("%s-crowd-delivery-after-disconnects" % backend,
+                                  "other connections' disconnects do not affect open subscriptions", connections=n,
+                                  wrong=len(bad), delivered_to_disconnected=len(gone)))
+            for c in conns[1::2] + [pub]:
+                c.feed(None)
+            await rig.settle()
+        return Result(viol, True, ["backend:" + backend], sample={"backend": backend, "connections": n})
+
+
+SUBCHECKS = [Fanout(), WriterWindow(), Crowd()]
